@@ -4062,7 +4062,8 @@ def grd19_level0_inputs_closed(P, R, L, rule="GRD-19"):
 def bundle_retention(P, R, L):
     """what compaction and flushing keep, drop and where they put it (a resurrected or lost entry is wrong for every reader)"""
     R.clause("RETAIN", "retention bundle: GRD-2 / ORD-7 (drop guards, oldest snapshot), GRD-10 (closed intervals), GRD-14 / GRD-19 (level-0 inputs "
-             "closed under overlap), GRD-17 (flush level), PAIR-9 (boundary inputs), ACC-1 (range accumulators), ORD-3 (install before drop)")
+             "closed under overlap), GRD-17 (flush level), PAIR-9 (boundary inputs), ACC-1 (range accumulators), ORD-3 / ORD-3c (install before drop, never after an error or a shutdown-shortened merge), "
+             "PAIR-12 / PAIR-15 (seek-compaction file, level and version belong together)")
     R.once(grd2_retention, P, R, L)
     R.once(ord7_smallest_snapshot, P, R, L)
     R.once(grd10_closed_intervals, P, R, L)
@@ -4073,6 +4074,10 @@ def bundle_retention(P, R, L):
     R.once(pair9_levels, P, R, L)
     R.once(acc1, P, R, L)
     R.once(ord3_flush, P, R, L)
+    R.once(ord3_tables, P, R, L)
+    R.once(ord3c_shutdown_not_installed, P, R, L)
+    R.once(pair15_charge_same_version, P, R, L)
+    R.once(pair12_file_level_pairs, P, R, L)
 
 
 def bundle_liveness(P, R, L):
@@ -4426,3 +4431,74 @@ def pair14_input_expansion(P, R, L, rule="PAIR-14"):
                 det.append("input_files[%d] is replaced in bb%d without replacing input_files[%d]" % (i, s_, j))
     R.check(rule, fn + "|both-input-sets-adopted-together", bool(stores[0]) and bool(stores[1]) and not det, where(b),
             "a grown level-L input set is adopted together with its parent-level input set", "; ".join(sorted(set(det))) or "stores %s" % stores)
+
+
+# ------------------------------------------------------------------------------------------- ORD-3c a merge cut short by shutdown is never installed
+def ord3c_shutdown_not_installed(P, R, L, rule="ORD-3c"):
+    """compact_tables' merge loop also stops when the database is shutting down — then only a prefix of the inputs was
+    merged. Every path from the end of the merge to install_compaction_results (which deletes ALL inputs) passes the
+    `not shutting down` edge of a fresh load of the shutdown flag."""
+    ct = P.body(COMPACT_TABLES)
+    if ct is None:
+        return R.missing_anchor(rule, COMPACT_TABLES)
+    R.analysed(ct)
+    inst = sites_reaching(P, ct, INSTALL)
+    merges = [u for (u, cb) in unlocked_closures(P, L, ct) if normal_sites(cb, "tables::table_builder::TableBuilder::add_entry")]
+    loads = [c for c in ct.calls() if not ct.is_cleanup(c.bb) and (c.name or "").endswith("::load") and "atomic" in (c.name or "")
+             and any("is_shutting_down" in o.path for o in origins(ct, c.args[0]))]
+    not_down = []
+    for c in loads:
+        for t in _bt(ct, c.dest["l"]):
+            not_down += [(t.bb, x) for x in t.err]
+    starts = []
+    for m in merges:
+        for t in result_tests(ct, m.dest["l"]):
+            starts += t.ok
+    ok = bool(inst) and bool(merges) and bool(not_down) and bool(starts)
+    for i in inst:
+        for st_ in starts:
+            if not ct.must_pass_fs(i.bb, through_edges=not_down, start=st_):
+                ok = False
+    R.check(rule, COMPACT_TABLES + "|shutdown-checked-before-install", ok, where(ct),
+            "from the end of the merge, install_compaction_results is reachable only over the false edge of is_shutting_down.load()",
+            "install sites %d, shutdown loads after the merge %d" % (len(inst), len(loads)))
+    # the merge loop itself re-reads the flag (so that it can stop): a load inside the merge closure's cycle
+    for (u, cb) in unlocked_closures(P, L, ct):
+        if normal_sites(cb, "tables::table_builder::TableBuilder::add_entry"):
+            R.analysed(cb)
+            inl = [c for c in cb.calls() if not cb.is_cleanup(c.bb) and (c.name or "").endswith("::load") and "atomic" in (c.name or "") and in_cycle(cb, c.bb)
+                   and any("is_shutting_down" in o.path for o in origins(cb, c.args[0]))]
+            R.check(rule, cb.path + "|merge-loop-polls-shutdown", bool(inl), where(cb), "the merge loop polls the shutdown flag", "loads in the loop %d" % len(inl))
+
+
+# ------------------------------------------------------------------------------------------- PAIR-15 the seek charge goes to the version that was read
+def pair15_charge_same_version(P, R, L, rule="PAIR-15"):
+    """DB::get charges the seek statistics (file + level) it collected to the version it read from: the receiver of
+    update_stats is the version handle captured for the lookup, not a freshly loaded current version (whose files at
+    that level may be different ones — the picked seek compaction would then move / delete the wrong file)."""
+    b = P.body(GET)
+    if b is None:
+        return R.missing_anchor(rule, GET)
+    R.analysed(b)
+    us = [c for c in b.calls() if not b.is_cleanup(c.bb) and c.name == "versioning::version::Version::update_stats"]
+    if not us:
+        return R.check(rule, GET + "|anchors", False, where(b), "DB::get applies the seek charge (update_stats)", "no update_stats call")
+    # the version handle handed to the lookup closure
+    handed = set()
+    for (u, cb) in unlocked_closures(P, L, b):
+        vg = [c for c in cb.calls() if not cb.is_cleanup(c.bb) and c.name == VERSION_GET]
+        for c in vg:
+            for o in origins(cb, c.args[0]):
+                if o.kind == "upvar":
+                    for po in upvar_parent_origins(P, cb, o.name):
+                        if po.kind == "call" and po.site is not None:
+                            handed.add(po.site.bb)
+    ok = bool(handed)
+    det = []
+    for c in us:
+        sites = {o.site.bb for o in origins(b, c.args[0]) if o.kind == "call" and o.site is not None and o.name == CUR_VERSION}
+        if not sites or not sites <= handed:
+            ok = False
+            det.append("line %s: update_stats is applied to a version loaded at bb%s, the lookup used the one loaded at bb%s" % (c.line, sorted(sites), sorted(handed)))
+    R.check(rule, GET + "|charge-applied-to-the-version-that-was-read", ok, where(b),
+            "update_stats is called on the version handle the lookup ran against", "; ".join(det) or "version loaded at bb%s" % sorted(handed))
